@@ -17,6 +17,15 @@ def fam_header(ns):
     return ["fam %s %s" % (env.validator_code(f.dict_cls), env.validator_code(f.list_cls)) for f in ns.families]
 
 
+def float_table(values):
+    out = []
+    for v in values:
+        if isinstance(v, float):
+            n, d = v.as_integer_ratio()
+            out.append("flt %d %d %d" % (n, d, len(repr(v))))
+    return out
+
+
 def op_lines(ops, fam_index):
     out = []
     for op in ops:
@@ -47,6 +56,8 @@ def reset_class_state(ns):
                 cls._buffer.clear()
                 cls._buffered_collections.clear()
                 cls._CURRENT_BUFFER_SIZE = 0
+                if "_BUFFER_CAPACITY" in cls.__dict__:
+                    delattr(cls, "_BUFFER_CAPACITY")
                 ctx = cls._buffer_context
                 ctx._count = 0
                 if hasattr(ctx, "_original_buffer_capacitys"):
@@ -91,7 +102,8 @@ class ModelDriver:
         if not os.path.exists(DRIVER):
             raise RuntimeError("model driver not built: " + DRIVER)
         self.p = subprocess.Popen([DRIVER], stdin=subprocess.PIPE, stdout=subprocess.PIPE, text=True, bufsize=1)
-        for line in fam_header(ns):
+        import gen
+        for line in fam_header(ns) + float_table(gen.SCALARS):
             self._send(line)
             assert self._recv() == "ok"
 
@@ -102,9 +114,9 @@ class ModelDriver:
     def _recv(self):
         return self.p.stdout.readline().rstrip("\n")
 
-    def run(self, lines):
+    def run(self, lines, reset="reset"):
         """Returns, per input line, the list of output lines (1 for bad-op, else 2)."""
-        self._send("reset")
+        self._send(reset)
         assert self._recv() == "ok"
         out = []
         for line in lines:
